@@ -269,6 +269,20 @@ Theorem C19_source_add_sys_path_is_model : forall e st p,
 Proof. exact gen_add_sys_path_is_model. Qed.
 Print Assumptions C19_source_add_sys_path_is_model.
 
+(** pypyr/moduleloader.py get_module: nothing but one import attempt against the current
+    sys.path per request (no memory of earlier failures), PyModuleNotFoundError otherwise *)
+Theorem C19_source_get_module_is_model : forall e sp m,
+  gen_get_module (find_module e sp) m = get_module e sp m.
+Proof. exact gen_get_module_is_model. Qed.
+Print Assumptions C19_source_get_module_is_model.
+
+(** a module next to a file-loaded pipeline imports, whatever failed before *)
+Theorem C19_get_module_sibling : forall e sp dir m,
+  In dir sp -> is_abs dir = true -> e_is_file e (joinpath dir (m ++ ".py")) = true ->
+  exists mp, get_module e sp m = Ok mp.
+Proof. exact get_module_sibling. Qed.
+Print Assumptions C19_get_module_sibling.
+
 (** pypyr/steps/pype.py get_arguments (loader / pyDir / resolveFromParent / parent) and the
     fields run_step passes on to the child Pipeline and to load_and_run_pipeline *)
 Theorem C19_source_pype_cascade_is_model : forall info o,
